@@ -8,6 +8,8 @@ mod wal;
 mod rdf;
 mod conc;
 mod lpg;
+mod q;
+mod qmeta;
 mod txstress;
 mod conc_txm;
 mod conc_buf;
@@ -28,6 +30,9 @@ fn main() {
         "rdf" => rdf::main(&opts),
         "conc" => conc::main(&opts),
         "lpg" => lpg::main(&opts),
+        "q" => q::main(&opts),
+        "qprobe" => q::probe(&opts),
+        "qmeta" => qmeta::main(&opts),
         "txstress" => txstress::main(&opts),
         _ => {
             eprintln!("unknown subcommand {cmd}");
